@@ -82,6 +82,25 @@ def validated_return(P, R, r, sepch, idv, serv):
                                      and is_var((d.ev.get('rhs') or d.ev.get('init'))['args'][0], uar.TABLE)
                                      and idv in vars_in((d.ev.get('rhs') or d.ev.get('init'))['args'][1]) for d in defs)
             R.ob('C04.GRD.1', okd, s, 'the returned request is the table entry for the parsed id', key='return:lookup-by-id')
+    # the tag's numbers are compared as written: the locals that hold them are as wide as the fields they are compared with
+    from .. import numeric
+
+    def vtype(name):
+        for s in r.sites():
+            if s.ev['k'] == 'decl' and s.ev.get('var') == name:
+                return s.ev.get('t')
+        for p in r.param_info:
+            if p['name'] == name:
+                return p.get('t')
+        return None
+    # the first int field of the request is the table key
+    for var, field, what in ((serv, 'serial', 'serial'), (idv, 'client', 'id')):
+        ft = (P.record_field(core.REQ_REC, field) or {}).get('t')
+        tv, tf = numeric.type_range(vtype(var) or ''), numeric.type_range(ft or '')
+        if not tf:
+            continue
+        R.ob('C04.GRD.1', bool(tv) and tv[0] <= tf[0] and tv[1] >= tf[1], r,
+             'the parsed %s is held in a type (%s) that can represent every value of the request field it is compared with (%s)' % (what, vtype(var), ft), key='width:%s' % what)
     R.floor('C04.GRD.1', 5)
 
 
@@ -191,9 +210,10 @@ def effects_guarded(P, R, cl):
                 nm = True
             l, op, rr = r
             if is_var(l, idxv) and not const_of(rr) is not None:
-                k = 'ge' if op in ('>=', '>') else ('lt' if op in ('<', '<=') else None)
+                k = {'>=': 'ge', '>': 'gt', '<': 'lt', '<=': 'le'}.get(op)
                 if k:
-                    if lim and lim[1] == sx(rr) and lim[0] != k:
+                    # only strictly contradictory bounds prune the path: `>=` then `<=` leaves equality possible
+                    if lim and lim[1] == sx(rr) and frozenset((lim[0], k)) in (frozenset(('ge', 'lt')), frozenset(('gt', 'le')), frozenset(('gt', 'lt'))):
                         return None
                     lim = (k, sx(rr))
             return (a, nm, lim)
@@ -328,4 +348,10 @@ def run(P, R, tier):
     from ..report import Remap
     from . import c07
     c07.slot_stability(P, Remap(R, {'C07.WMC.3': 'C04.WMC.3'}))
+    # ... and a slot still referenced by a pending client is not handed to another service
+    c07.storage_audit(P, Remap(R, {'C07.WMC.1': 'C04.WMC.3'}, keys=('slot-release',)))
+    # a reply is honoured from an awaited service: a service is awaited only if it was actually asked
+    from . import c06
+    xq, b = c06.builder(P)
+    c06.builder_guards(P, Remap(R, {'C06.MPT.1': 'C04.MPT.1'}), xq, b)
     return EXPLANATION, ASSUMPTIONS
